@@ -38,8 +38,11 @@ theorem lacking_every_role_no_access (res : Res) (user : List String) (h : Lacks
 lists: no extra way in (super-role, wildcard …) and no extra way out. -/
 theorem has_access_source_is_hasAccess (required user : List String) :
     hasAccessExpr.eval required user = some (hasAccess required user) := by
-  simp only [hasAccessExpr, AccExpr.eval, SetExpr.eval, hasAccess, bind, Option.bind]
-  rw [nonEmpty_filter_eq_any]
+  -- whatever way the rule is written, it can only look at: required empty? user empty? intersection non-empty?
+  have table : ∀ er eu n : Bool, (n = true → er = false ∧ eu = false) →
+      hasAccessExpr.evalAbs er eu n = some (er || n) := by decide
+  rw [eval_eq_evalAbs, table _ _ _ (both_nonEmpty_consistent required user)]
+  simp only [hasAccess, nonEmpty_filter_eq_any]
 
 /-! ## Endpoints that call their guard first (any world, any request) -/
 
